@@ -1,10 +1,12 @@
 import Mieru.Proofs.Tamper
+import Mieru.Proofs.TamperKey
 import Mieru.Proofs.TamperPacket
 import Mieru.Proofs.TamperE2E
 import Mieru.Props.C02
 import Mieru.Props.C17
 import Mieru.Gen.Consts
 import Mieru.Gen.Tamper
+import Mieru.Gen.C04Tcp
 /-!
 # C04 — tampering with bytes on the wire never changes what the application reads
 
@@ -26,7 +28,13 @@ they talk about is the `Mieru.StreamWire` receiver of C01.
   is a contiguous run of the sender's segments, and after the in-order check of `Session.inputData`
   (repo commit "fix: reject out-of-sequence data segments on the stream transport") the application
   reads a prefix of the data — under the hypothesis `DomSepT` that no payload plaintext parses as a
-  metadata block. Without that check the run `segs.drop 1` was delivered as it stood (regression
+  metadata block. WITHOUT it the statement is false, for the model (`tcp_payload_as_metadata_counterexample`)
+  and for the real endpoints (known finding `C04/tcp/payload-opened-as-metadata`). The honest set is the
+  key's WHOLE sealing history — both directions, every connection of the user — in
+  `tcp_tamper_key_history` / `tcp_tamper_session_prefix` / `tcp_aligned_reflection_splice` (named
+  hypothesis `NonceRangesDisjoint`; direction test, session dispatch, in-order check and the underlay's
+  guards modelled in Model/TamperKey.lean and tied to the source by `stream_session_layer_is_the_code`);
+  low-entropy segments are instances (`Seg.wfT`, `tcp_tamper_low_entropy`). Without that check the run `segs.drop 1` was delivered as it stood (regression
   `example` at the end; found by the campaign as `C04/tcp/initial-nonce-advanced-stream-prefix-removed`).
 * Packet transport. `udp_tamper_genuine_plaintexts`: the metadata and payload plaintexts of an accepted
   datagram were both sealed by the honest sender under the datagram's nonce. `udp_tamper_genuine`:
@@ -74,9 +82,12 @@ theorem receiver_is_streamwire (A : Aead) (M : MetaCodec) (fuel : Nat) (r : Rx) 
 
 /-- For ANY input whatsoever, in any chunking: under the ideal AEAD, a receiver that starts at the
     sender's nonce emits a prefix of the (metadata, payload) sequence the sender sealed — the i-th
-    open uses the nonce the sender used for exactly its i-th seal. -/
+    open uses the nonce the sender used for exactly its i-th seal. Honest segments need only be
+    `Seg.wfT` ("the metadata announces a payload iff there is one", representable fields): low-entropy
+    segments, whose `payloadLen` is the ENCODED body length, are instances (`Seg.wf` of C01 implies
+    `Seg.wfT`: `Seg.wf.toT`). -/
 theorem tcp_tamper_prefix (openF : Nat → Bytes → Option Bytes) (M : MetaCodec) (c : Nat) (segs : List Seg)
-    (hI : ∀ n ct p, openF n ct = some p → honest M c segs n p) (hw : ∀ s ∈ segs, s.wf M)
+    (hI : ∀ n ct p, openF n ct = some p → honest M c segs n p) (hw : ∀ s ∈ segs, s.wfT M)
     (fuel : Nat) (chunks : List Bytes) :
     ∃ j, j ≤ segs.length ∧
       (chunks.foldl (feedF openF M fuel) ⟨c, [], [], false⟩).out = (segs.take j).map (fun s => (s.md, s.payload)) := by
@@ -84,10 +95,13 @@ theorem tcp_tamper_prefix (openF : Nat → Bytes → Option Bytes) (M : MetaCode
     induction chunks with
     | nil => intro r; simp [feedF]
     | cons x xs ih => intro r; simp only [List.foldl_cons, List.flatten_cons, ih]; simp [feedF, List.foldl_append]
-  rw [hfold]
-  obtain ⟨j, hj, hout, _⟩ := feedF_pref M openF c segs hI hw fuel ⟨c, [], [], false⟩ chunks.flatten
-    ⟨0, by omega, by simp, fun _ => by simp [ctr]⟩
-  exact ⟨j, hj, hout⟩
+  rw [hfold, feedF_eq_G]
+  obtain ⟨j, _, hj, hout, _⟩ := feedG_win M openF (fun _ => openF) c segs
+    (fun n ct p _ _ h => hI n ct p h) (fun _ n w p _ _ h => hI n w p h) hw 0 fuel ⟨c, [], [], false⟩ chunks.flatten
+    ⟨0, Nat.le_refl _, by omega, by simp, fun _ => by simp [ctr]⟩
+  refine ⟨j, hj, ?_⟩
+  rw [hout, List.drop_zero]
+  rfl
 
 /-- The first failure is terminal: a dead receiver stays dead and never emits anything again. -/
 theorem tcp_first_failure_terminal (openF : Nat → Bytes → Option Bytes) (M : MetaCodec) (fuel : Nat) (r : Rx)
@@ -115,7 +129,7 @@ def DomSepT (M : MetaCodec) (segs : List Seg) : Prop := ∀ s ∈ segs, s.payloa
     its in-order check (segments of the session are numbered 0, 1, 2, …) the application reads a
     prefix of the payloads that were sent. -/
 theorem tcp_tamper_any_nonce (openF : Nat → Bytes → Option Bytes) (M : MetaCodec) (c : Nat) (segs : List Seg)
-    (hI : ∀ n ct p, openF n ct = some p → honest M c segs n p) (hw : ∀ s ∈ segs, s.wf M)
+    (hI : ∀ n ct p, openF n ct = some p → honest M c segs n p) (hw : ∀ s ∈ segs, s.wfT M)
     (hdom : DomSepT M segs) (seqOf : Md → Nat) (hseq : ∀ i (hi : i < segs.length), seqOf (segs[i]).md = i)
     (c' fuel : Nat) (bs : Bytes) :
     ∃ k, inOrderRead seqOf 0 (feedF openF M fuel ⟨c', [], [], false⟩ bs).out = (segs.take k).map (·.payload) := by
@@ -126,9 +140,10 @@ theorem tcp_tamper_any_nonce (openF : Nat → Bytes → Option Bytes) (M : MetaC
     exact hseq i hi
   by_cases ha : ∃ j0, j0 ≤ segs.length ∧ c' = ctr c (segs.take j0)
   · obtain ⟨j0, hj0, hc'⟩ := ha
-    obtain ⟨j, _, _, hout, _⟩ := feedF_win M openF c segs hI hw j0 fuel ⟨c', [], [], false⟩ bs
+    obtain ⟨j, _, _, hout, _⟩ := feedG_win M openF (fun _ => openF) c segs
+      (fun n ct p _ _ h => hI n ct p h) (fun _ n w p _ _ h => hI n w p h) hw j0 fuel ⟨c', [], [], false⟩ bs
       ⟨j0, Nat.le_refl _, hj0, by simp, fun _ => hc'⟩
-    rw [hout]
+    rw [feedF_eq_G, hout]
     obtain ⟨k, hk⟩ := inOrderRead_window seqOf (segs.map evOf) hseq' j0 j
     refine ⟨k, ?_⟩
     have e1 : List.map evOf (List.drop j0 (List.take j segs)) = List.drop j0 (List.take j (List.map evOf segs)) := by
@@ -141,6 +156,144 @@ theorem tcp_tamper_any_nonce (openF : Nat → Bytes → Option Bytes) (M : MetaC
     have := feedF_unaligned M openF c segs hI hdom c' hun fuel ⟨c', [], [], false⟩ bs ⟨rfl, fun _ => rfl⟩
     rw [this]
     exact ⟨0, by simp [inOrderRead]⟩
+
+/-! ### The key's whole sealing history (both directions, every connection of the user)
+
+`honest M c segs` above is ONE direction of ONE connection. The same key seals the reverse direction
+(`t.send = t.block.Clone()`) and every other connection of the user, and the receiver's nonce is the
+attacker's choice, so a receiver can be ALIGNED to any of those streams (the reverse direction
+reflected, another connection spliced in from its first byte). The honest set is therefore a family `K`
+of streams (`Tamper.Stream`: nonce base, sealed by a client or by a server, segments); nonces are the
+24-byte big-endian values on the wire read as naturals. What separates the streams is the NAMED
+hypothesis `NonceRangesDisjoint K` (bases are independent random 24-byte values, `newNonce`); what keeps
+a foreign stream from being delivered is the session layer, modelled in `Model/TamperKey.lean`:
+`underlayCut` (first-segment validation of a server underlay, open request on a client, open response
+on a server), `sessionRead` (dispatch by session id, a server session exists from its open request
+on, the direction test at the top of `Session.input`, the in-order check of `inputData`, close).
+`appRead ids isClient sid out` is what the reader of session `sid` gets when the parser emitted `out` —
+on a MULTIPLEXED connection: the per-session filter is part of the statement.
+
+The receiver is `feedG`: the payload slot is opened by `openP m` (for types 10/11 the low-entropy
+decode precedes the AEAD open: `lePayOpen`, corollary `tcp_tamper_low_entropy`); `feedF openF M` is the
+instance `feedG openF (fun _ => openF) M` (`feedF_eq_G`). -/
+
+/-- For ANY starting nonce and ANY input, the reader of session `sid` on a client (`isClient = true`) or
+    server connection reads nothing, or a PREFIX of the data-bearing payloads of session `sid` in ONE
+    stream `st` of the key's history that was sealed by the OTHER role — never anything sealed by its own
+    side (reflection), never a non-prefix. -/
+theorem tcp_tamper_key_history (openF : Nat → Bytes → Option Bytes) (openP : Md → Nat → Bytes → Option Bytes)
+    (M : MetaCodec) (ids : Md → Ids) (K : List Stream)
+    (hI : ∀ n ct p, openF n ct = some p → honestK M K n p)
+    (hIP : ∀ m n w p, openP m n w = some p → honestK M K n p)
+    (hd : NonceRangesDisjoint K) (hw : ∀ st ∈ K, ∀ s ∈ st.segs, s.wfT M) (hdom : DomSepK M K)
+    (isClient : Bool) (sid : Nat) (hdir : DirWf ids K) (hseq : SeqWf ids sid K)
+    (c' fuel : Nat) (bs : Bytes) :
+    appRead ids isClient sid (feedG openF openP M fuel ⟨c', [], [], false⟩ bs).out = [] ∨
+    ∃ st ∈ K, st.fromClient = !isClient ∧ ∃ k,
+      appRead ids isClient sid (feedG openF openP M fuel ⟨c', [], [], false⟩ bs).out
+        = ((dataOf ids sid st.segs).take k).map (·.payload) := by
+  rcases feedG_runK M openF openP K hI hIP hd hw hdom c' fuel bs with h0 | ⟨st, hst, j0, j, _, _, hout⟩
+  · left; rw [h0]; rfl
+  · obtain ⟨hrefl, k, hk⟩ := appRead_of_stream ids st (hdir st hst) isClient sid (hseq st hst)
+      (feedG openF openP M fuel ⟨c', [], [], false⟩ bs).out (by rw [hout]; exact sublist_run_mem st.segs j0 j)
+    by_cases hrole : st.fromClient = isClient
+    · left; exact hrefl hrole
+    · right
+      refine ⟨st, hst, ?_, k, hk⟩
+      cases h1 : st.fromClient <;> cases h2 : isClient <;> simp_all
+
+/-- … hence, when session ids separate the connections (`hsid`: of the streams sealed by the other role
+    only `own` carries segments of session `sid` — session ids are random 32-bit values drawn per
+    session), the reader reads a prefix of what ITS peer session wrote on ITS connection. -/
+theorem tcp_tamper_session_prefix (openF : Nat → Bytes → Option Bytes) (openP : Md → Nat → Bytes → Option Bytes)
+    (M : MetaCodec) (ids : Md → Ids) (K : List Stream)
+    (hI : ∀ n ct p, openF n ct = some p → honestK M K n p)
+    (hIP : ∀ m n w p, openP m n w = some p → honestK M K n p)
+    (hd : NonceRangesDisjoint K) (hw : ∀ st ∈ K, ∀ s ∈ st.segs, s.wfT M) (hdom : DomSepK M K)
+    (isClient : Bool) (sid : Nat) (hdir : DirWf ids K) (hseq : SeqWf ids sid K)
+    (own : Stream) (hsid : ∀ st ∈ K, st.fromClient = !isClient → dataOf ids sid st.segs ≠ [] → st = own)
+    (c' fuel : Nat) (bs : Bytes) :
+    ∃ k, appRead ids isClient sid (feedG openF openP M fuel ⟨c', [], [], false⟩ bs).out
+        = ((dataOf ids sid own.segs).take k).map (·.payload) := by
+  rcases tcp_tamper_key_history openF openP M ids K hI hIP hd hw hdom isClient sid hdir hseq c' fuel bs with
+    h0 | ⟨st, hst, hrole, k, hk⟩
+  · exact ⟨0, by rw [h0]; simp⟩
+  · by_cases he : dataOf ids sid st.segs = []
+    · exact ⟨0, by rw [hk, he]; simp⟩
+    · rw [hsid st hst hrole he] at hk; exact ⟨k, hk⟩
+
+/-- ALIGNED reflection and splice, stated directly: a receiver whose starting nonce names a segment
+    boundary of stream `st` of the history delivers NOTHING to session `sid` if `st` was sealed by the
+    receiver's own side (reflection of its own direction, or of any connection's same direction), and
+    nothing if `st` carries no segment of session `sid` (another connection of the user spliced in);
+    in every case at most a prefix of session `sid`'s data in `st`. -/
+theorem tcp_aligned_reflection_splice (openF : Nat → Bytes → Option Bytes) (openP : Md → Nat → Bytes → Option Bytes)
+    (M : MetaCodec) (ids : Md → Ids) (K : List Stream)
+    (hI : ∀ n ct p, openF n ct = some p → honestK M K n p)
+    (hIP : ∀ m n w p, openP m n w = some p → honestK M K n p)
+    (hd : NonceRangesDisjoint K) (hw : ∀ st ∈ K, ∀ s ∈ st.segs, s.wfT M)
+    (isClient : Bool) (sid : Nat) (hdir : DirWf ids K) (hseq : SeqWf ids sid K)
+    (st : Stream) (hst : st ∈ K) (j0 : Nat) (hj0 : j0 ≤ st.segs.length) (fuel : Nat) (bs : Bytes) :
+    let read := appRead ids isClient sid
+      (feedG openF openP M fuel ⟨ctr st.c (st.segs.take j0), [], [], false⟩ bs).out
+    (st.fromClient = isClient → read = []) ∧ (dataOf ids sid st.segs = [] → read = []) ∧
+    ∃ k, read = ((dataOf ids sid st.segs).take k).map (·.payload) := by
+  intro read
+  obtain ⟨j, _, _, hout, _⟩ := feedG_win M openF openP st.c st.segs
+    (fun n ct p hlo hhi h => ranged_of_family M K hd st hst (hI n ct p h) hlo hhi)
+    (fun m n w p hlo hhi h => ranged_of_family M K hd st hst (hIP m n w p h) hlo hhi)
+    (hw st hst) j0 fuel ⟨ctr st.c (st.segs.take j0), [], [], false⟩ bs ⟨j0, Nat.le_refl _, hj0, by simp, fun _ => rfl⟩
+  obtain ⟨hrefl, k, hk⟩ := appRead_of_stream ids st (hdir st hst) isClient sid (hseq st hst)
+    (feedG openF openP M fuel ⟨ctr st.c (st.segs.take j0), [], [], false⟩ bs).out
+    (by rw [hout]; exact sublist_run_mem st.segs j0 j)
+  exact ⟨hrefl, fun he => by show appRead _ _ _ _ = []; rw [hk, he]; simp, k, hk⟩
+
+/-- Low-entropy traffic is an instance: with the payload opener of the stream transport (`lePayOpen`:
+    canonical-padding check of the encoded body, then the AEAD open of the decoded body and the
+    unmodified tag) the ideal AEAD alone gives the hypothesis on the payload slot. -/
+theorem tcp_tamper_low_entropy (openF : Nat → Bytes → Option Bytes) (leOf : Md → Option (Nat × Nat × Nat × Nat))
+    (M : MetaCodec) (ids : Md → Ids) (K : List Stream)
+    (hI : ∀ n ct p, openF n ct = some p → honestK M K n p)
+    (hd : NonceRangesDisjoint K) (hw : ∀ st ∈ K, ∀ s ∈ st.segs, s.wfT M) (hdom : DomSepK M K)
+    (isClient : Bool) (sid : Nat) (hdir : DirWf ids K) (hseq : SeqWf ids sid K)
+    (c' fuel : Nat) (bs : Bytes) :
+    appRead ids isClient sid (feedG openF (lePayOpen leOf openF) M fuel ⟨c', [], [], false⟩ bs).out = [] ∨
+    ∃ st ∈ K, st.fromClient = !isClient ∧ ∃ k,
+      appRead ids isClient sid (feedG openF (lePayOpen leOf openF) M fuel ⟨c', [], [], false⟩ bs).out
+        = ((dataOf ids sid st.segs).take k).map (·.payload) :=
+  tcp_tamper_key_history openF (lePayOpen leOf openF) M ids K hI
+    (fun m n w p h => lePayOpen_honest leOf openF (honestK M K) hI m n w p h) hd hw hdom isClient sid hdir hseq c' fuel bs
+
+/-- the protocol numbers of the direction test and of the dispatch are the ones the code compiles to -/
+theorem tamper_protocol_numbers :
+    Gen.openSessionRequest = 2 ∧ Gen.openSessionResponse = 3 ∧ Gen.closeSessionRequest = 4 ∧
+    Gen.closeSessionResponse = 5 ∧ Gen.dataClientToServer = 6 ∧ Gen.dataServerToClient = 7 ∧
+    Gen.ackClientToServer = 8 ∧ Gen.ackServerToClient = 9 ∧ Gen.dataClientToServerLowEntropy = 10 ∧
+    Gen.dataServerToClientLowEntropy = 11 := by decide
+
+/-- (T) The session layer of `Model/TamperKey.lean` is the code's, regenerated from the working tree by
+    tools/goextract/c04tcp.go on every run: `dirOK` is the direction test of `Session.input` for every
+    value of the protocol byte; on the stream transport a wrong direction returns an error (ends the
+    session); `inputData` takes open request / response and data; in its stream branch the in-order
+    check (with its error return) PRECEDES the counter increment and the hand-over to the application's
+    queue (`sessionRead` delivers nothing of a rejected segment); a client underlay refuses an open
+    request and a server underlay an open response (`underlayCut`); a server underlay validates its
+    first segment — open request, non-zero session id — before any dispatch. -/
+theorem stream_session_layer_is_the_code :
+    (∀ p : Fin 256, dirOK true p.val = true ↔ (p.val : Int) ∈ Gen.C04Tcp.inputDirClient) ∧
+    (∀ p : Fin 256, dirOK false p.val = true ↔ (p.val : Int) ∈ Gen.C04Tcp.inputDirServer) ∧
+    Gen.C04Tcp.inputWrongDirection =
+      ["if s.transportProtocol == common.PacketTransport { return nil }", "return stderror.ErrInvalidArgument"] ∧
+    Gen.C04Tcp.inputDataCondition =
+      "protocol == openSessionRequest || protocol == openSessionResponse || isDataProtocol(protocol)" ∧
+    Gen.C04Tcp.inputDataStreamOrder =
+      ["seq != streamNextRecv.Load() → return error", "streamNextRecv.Add(1)", "recvQueue.Insert"] ∧
+    Gen.C04Tcp.openRequestGuard = "if t.isClient { return stderror.ErrInvalidOperation }" ∧
+    Gen.C04Tcp.openResponseGuard = "if !t.isClient { return stderror.ErrInvalidOperation }" ∧
+    Gen.C04Tcp.eventLoopOrder = ["first segment: validateNewServerSessionSegment → return error", "dispatch"] ∧
+    Gen.C04Tcp.firstSegmentRejects =
+      ["seg == nil || seg.metadata == nil", "!ok || ss.Protocol() != openSessionRequest", "ss.sessionID == 0"] := by
+  refine ⟨by decide +kernel, by decide +kernel, ?_, ?_, ?_, ?_, ?_, ?_, ?_⟩ <;> decide
 
 /-! ## Packet transport
 
@@ -585,6 +738,254 @@ example :
     inOrderRead (fun m => m.tag) 0 [(tseg2.md, tseg2.payload)] = [] ∧
     inOrderRead (fun m => m.tag) 0 [(tseg1.md, tseg1.payload), (tseg2.md, tseg2.payload)] = [[10, 20, 30], [40, 50]] := by
   decide +kernel
+
+/-! ### Stream transport: the toy AEAD is ideal; the missing domain separation; the key family -/
+
+/-- the plaintexts the sender seals, in order: metadata, then the payload if there is one -/
+def ptsOf (M : MetaCodec) (segs : List Seg) : List Bytes :=
+  segs.flatMap (fun s => M.enc s.md :: (if s.payload = [] then [] else [s.payload]))
+
+theorem honest_of_pts (M : MetaCodec) (segs : List Seg) (c i : Nat) (p : Bytes)
+    (h : (ptsOf M segs)[i]? = some p) : honest M c segs (c + i) p := by
+  induction segs generalizing c i with
+  | nil => simp [ptsOf] at h
+  | cons s ss ih =>
+    unfold honest
+    by_cases hp : s.payload = []
+    · simp only [ptsOf, List.flatMap_cons, hp, if_true, List.cons_append, List.nil_append] at h
+      cases i with
+      | zero => left; simp at h; exact ⟨rfl, h.symm⟩
+      | succ i =>
+        right; right
+        simp only [hp, if_true]
+        have := ih (c + 1) i (by simpa [ptsOf] using h)
+        rw [show c + (i + 1) = c + 1 + i by omega]; exact this
+    · simp only [ptsOf, List.flatMap_cons, hp, if_false, List.cons_append, List.nil_append] at h
+      cases i with
+      | zero => left; simp at h; exact ⟨rfl, h.symm⟩
+      | succ i =>
+        cases i with
+        | zero => right; left; simp at h; exact ⟨hp, rfl, h.symm⟩
+        | succ i =>
+          right; right
+          simp only [hp, if_false]
+          have := ih (c + 2) i (by simpa [ptsOf] using h)
+          rw [show c + (i + 1 + 1) = c + 2 + i by omega]; exact this
+
+/-- the toy AEAD of the examples satisfies hypothesis `hI` of the stream theorems, for every codec,
+    counter and segment list -/
+theorem toyOpenT_ideal (M : MetaCodec) (c : Nat) (segs : List Seg) :
+    ∀ n ct p, toyOpenT M c segs n ct = some p → honest M c segs n p := by
+  intro n ct p h
+  unfold toyOpenT at h
+  simp only at h
+  split at h
+  · simp at h
+  · rename_i hge
+    split at h
+    · simp at h
+    · rename_i q hq
+      split at h
+      · have hpq : q = p := Option.some.inj h
+        subst hpq
+        have := honest_of_pts M segs c (n - c) q hq
+        rw [show c + (n - c) = n by omega] at this
+        exact this
+      · simp at h
+
+/-- (audit 2.6) an `openF` that satisfies `hI` AND opens the genuine stream, on segments that satisfy
+    `hw` (even the strong `Seg.wf`), `DomSepT` and `hseq` — every hypothesis of `tcp_tamper_prefix` /
+    `tcp_tamper_any_nonce` at a non-trivial point -/
+example :
+    (∀ n ct p, toyOpenT toyCodecT 5 [tseg1, tseg2] n ct = some p → honest toyCodecT 5 [tseg1, tseg2] n p) ∧
+    (∀ s ∈ [tseg1, tseg2], s.wf toyCodecT) ∧ (∀ s ∈ [tseg1, tseg2], s.wfT toyCodecT) ∧
+    DomSepT toyCodecT [tseg1, tseg2] ∧
+    (∀ i (hi : i < [tseg1, tseg2].length), ([tseg1, tseg2][i]).md.tag = i) ∧
+    (feedF (toyOpenT toyCodecT 5 [tseg1, tseg2]) toyCodecT 4 ⟨5, [], [], false⟩ twire).out
+      = [tseg1, tseg2].map (fun s => (s.md, s.payload)) := by
+  refine ⟨toyOpenT_ideal _ _ _, ?_, ?_, ?_, ?_, ?_⟩
+  · show ∀ s ∈ [tseg1, tseg2], s.md.payloadLen = s.payload.length ∧ s.md.prefixLen = s.pad1.length ∧
+      s.md.suffixLen = s.pad2.length ∧ toyCodecT.ok s.md = true
+    decide
+  · show ∀ s ∈ [tseg1, tseg2], (s.md.payloadLen = 0 ↔ s.payload = []) ∧ toyCodecT.ok s.md = true
+    decide
+  · show ∀ s ∈ [tseg1, tseg2], s.payload ≠ [] → toyCodecT.dec s.payload = none
+    decide
+  · decide
+  · decide +kernel
+
+/-- a 32-byte application chunk that IS a metadata block (payload length 32, sequence number 0) -/
+def cseg1 : Seg := ⟨⟨0, 32, 0, 0⟩, toyCodecT.enc ⟨0, 32, 0, 0⟩, [], []⟩
+def cseg2 : Seg := ⟨⟨0, 2, 0, 1⟩, [40, 50], [], []⟩
+def cwire : Bytes :=
+  tenc 5 (toyCodecT.enc cseg1.md) ++ tenc 6 cseg1.payload ++ tenc 7 (toyCodecT.enc cseg2.md) ++ tenc 8 cseg2.payload
+
+/-- WITHOUT `DomSepT` the stream transport has the UDP defect's sibling (audit 2.1): metadata and
+    payload of one segment are sealed under CONSECUTIVE nonces of one counter and the receiver's
+    starting nonce is the attacker's, so the receiver can be started on a PAYLOAD nonce. Every other
+    hypothesis of `tcp_tamper_any_nonce` holds (ideal AEAD `hI`, `hw`, `hseq`), the genuine wire `w`
+    decodes completely from the sender's counter — and a receiver started one counter later, fed `w`
+    without its first 48 bytes, opens the first segment's 32-byte payload as METADATA (payload length 32,
+    sequence number 0, so the in-order check passes) and hands the next segment's genuine METADATA
+    plaintext to the application: not a prefix of what was sent.
+
+    NO check of the real code stands in the way: the harness special `tcp-swap32` replays the witness on
+    the real endpoints on every run (client writes a 32-byte chunk that is an `openSessionRequest` block
+    with ANY session id — or, server→client, a data / open-response block for the client's session id with
+    sequence number 0 —, the stream is withheld, cut in front of that payload's ciphertext and restarted
+    with the clear-text nonce advanced onto its seal) and the receiving application reads the 32 bytes of
+    the NEXT segment's genuine metadata plaintext: both directions, first and later segments — known
+    finding `C04/tcp/payload-opened-as-metadata` (corpus/C04/tcp-payload-opened-as-metadata-{c2s,s2c}.json).
+    The replay cache does not fire (the 16-byte nonce prefix is seen once), the first-segment validation
+    passes (the forged block IS an open request), the timestamp is the chunk author's. Only two things
+    block it, neither in this model: a server configured with `userHintIsMandatory` (the advanced nonce no
+    longer ends in the user hint; not the default, and clients never check) and low-entropy traffic (the
+    payload's wire form is the ENCODED body, which does not open as a raw 48-byte ciphertext). -/
+theorem tcp_payload_as_metadata_counterexample :
+    ∃ (segs : List Seg) (w : Bytes) (read : List Bytes),
+      segs = [cseg1, cseg2] ∧
+      (∀ n ct p, toyOpenT toyCodecT 5 segs n ct = some p → honest toyCodecT 5 segs n p) ∧
+      (∀ s ∈ segs, s.wf toyCodecT) ∧
+      (∀ i (hi : i < segs.length), (segs[i]).md.tag = i) ∧
+      ¬ DomSepT toyCodecT segs ∧
+      (feedF (toyOpenT toyCodecT 5 segs) toyCodecT 4 ⟨5, [], [], false⟩ w).out = segs.map (fun s => (s.md, s.payload)) ∧
+      read = inOrderRead (fun m => m.tag) 0
+        (feedF (toyOpenT toyCodecT 5 segs) toyCodecT 4 ⟨6, [], [], false⟩ (w.drop 48)).out ∧
+      read = [toyCodecT.enc cseg2.md] ∧ ¬ ∃ k, read = (segs.take k).map (·.payload) := by
+  refine ⟨[cseg1, cseg2], cwire, [toyCodecT.enc cseg2.md], rfl, toyOpenT_ideal _ _ _, ?_, ?_, ?_, ?_, ?_, rfl, ?_⟩
+  · show ∀ s ∈ [cseg1, cseg2], s.md.payloadLen = s.payload.length ∧ s.md.prefixLen = s.pad1.length ∧
+      s.md.suffixLen = s.pad2.length ∧ toyCodecT.ok s.md = true
+    decide
+  · decide
+  · show ¬ ∀ s ∈ [cseg1, cseg2], s.payload ≠ [] → toyCodecT.dec s.payload = none
+    decide
+  · decide +kernel
+  · decide +kernel
+  · intro ⟨k, hk⟩
+    rcases k with _ | k
+    · simp at hk
+    · have h0 := congrArg List.head? hk
+      simp only [List.take_succ_cons, List.map_cons, List.head?_cons] at h0
+      revert h0; decide
+
+/-! The key family: a client's reader of session 1 against three streams of one key — its own
+    connection's server→client stream (multiplexed: session 2 interleaved), the reverse direction of its
+    connection, and the server→client stream of ANOTHER connection of the user (session 3). The toy
+    metadata packs (type, session id, sequence number) into `tag`. -/
+
+def toyIds (m : Md) : Ids := ⟨m.tag % 16, (m.tag / 16) % 4, m.tag / 64⟩
+def ktag (proto sid seq : Nat) : Nat := proto + 16 * sid + 64 * seq
+
+/-- own connection, server→client, nonce base 100: open response (session 1, seq 0), open response of
+    the multiplexed session 2, data (session 1, seq 1) -/
+def kown : Stream := ⟨100, false,
+  [⟨⟨0, 2, 0, ktag 3 1 0⟩, [1, 2], [], []⟩, ⟨⟨0, 1, 0, ktag 3 2 0⟩, [9], [], []⟩,
+   ⟨⟨0, 3, 0, ktag 7 1 1⟩, [3, 4, 5], [], []⟩]⟩
+/-- own connection, client→server (what this client sealed itself), nonce base 5 -/
+def krev : Stream := ⟨5, true,
+  [⟨⟨0, 2, 0, ktag 2 1 0⟩, [7, 7], [], []⟩, ⟨⟨0, 1, 0, ktag 6 1 1⟩, [8], [], []⟩, ⟨⟨0, 0, 0, ktag 4 1 2⟩, [], [], []⟩]⟩
+/-- another connection of the same user, server→client, session 3, nonce base 200 -/
+def koth : Stream := ⟨200, false, [⟨⟨0, 3, 0, ktag 3 3 0⟩, [6, 6, 6], [], []⟩, ⟨⟨0, 1, 0, ktag 7 3 1⟩, [5], [], []⟩]⟩
+def kfam : List Stream := [kown, krev, koth]
+
+/-- toy ideal AEAD for a family: opens exactly what some stream of the family sealed -/
+def toyOpenK (M : MetaCodec) (K : List Stream) (n : Nat) (ct : Bytes) : Option Bytes :=
+  K.findSome? (fun st => toyOpenT M st.c st.segs n ct)
+
+theorem toyOpenK_ideal (M : MetaCodec) (K : List Stream) :
+    ∀ n ct p, toyOpenK M K n ct = some p → honestK M K n p := by
+  intro n ct p h
+  induction K with
+  | nil => simp [toyOpenK] at h
+  | cons st K ih =>
+    unfold toyOpenK at h
+    rw [List.findSome?_cons] at h
+    split at h
+    · rename_i q hq
+      have hpq : q = p := Option.some.inj h
+      subst hpq
+      exact ⟨st, List.mem_cons_self, toyOpenT_ideal M st.c st.segs n ct q hq⟩
+    · obtain ⟨st', hst', hh⟩ := ih h
+      exact ⟨st', List.mem_cons_of_mem _ hst', hh⟩
+
+/-- the wire of a toy stream: every seal is `plaintext ++ 16 × (nonce mod 256)` -/
+def kwire (st : Stream) : Bytes :=
+  ((ptsOf toyCodecT st.segs).zipIdx.map (fun x => tenc (st.c + x.2) x.1)).flatten
+
+theorem kfam_disjoint : NonceRangesDisjoint kfam := by
+  have e1 : ctr kown.c kown.segs = 106 := by decide
+  have e2 : ctr krev.c krev.segs = 10 := by decide
+  have e3 : ctr koth.c koth.segs = 204 := by decide
+  have c1 : kown.c = 100 := rfl
+  have c2 : krev.c = 5 := rfl
+  have c3 : koth.c = 200 := rfl
+  intro s1 h1 s2 h2 n a b c d
+  simp only [kfam, List.mem_cons, List.not_mem_nil, or_false] at h1 h2
+  rcases h1 with rfl | rfl | rfl <;> rcases h2 with rfl | rfl | rfl <;> first | rfl | (exfalso; omega)
+
+/-- Every hypothesis of `tcp_tamper_key_history` holds for the family (session 1, client reader), and:
+    the genuine own stream is decoded completely and read completely (session 2's segment is filtered
+    out); a receiver ALIGNED to the reverse direction (reflection, its own nonce 5) emits those
+    segments — the AEAD accepts them — and the client's reader gets NOTHING (the server's reader, whose
+    stream it is, gets everything up to the close); aligned to the other connection (splice, nonce 200)
+    it emits that connection's segments and the reader gets nothing; started at the own stream's third
+    segment (nonce 104) the in-order check delivers nothing; the server's reader of session 1 gets
+    nothing from its own server→client stream reflected. -/
+example :
+    (∀ n ct p, toyOpenK toyCodecT kfam n ct = some p → honestK toyCodecT kfam n p) ∧
+    NonceRangesDisjoint kfam ∧ (∀ st ∈ kfam, ∀ s ∈ st.segs, s.wfT toyCodecT) ∧ DomSepK toyCodecT kfam ∧
+    DirWf toyIds kfam ∧ SeqWf toyIds 1 kfam ∧
+    (∀ st ∈ kfam, st.fromClient = !true → dataOf toyIds 1 st.segs ≠ [] → st = kown) ∧
+    (feedG (toyOpenK toyCodecT kfam) (fun _ => toyOpenK toyCodecT kfam) toyCodecT 6
+      ⟨100, [], [], false⟩ (kwire kown)).out = kown.segs.map (fun s => (s.md, s.payload)) ∧
+    appRead toyIds true 1 (kown.segs.map (fun s => (s.md, s.payload))) = [[1, 2], [3, 4, 5]] ∧
+    appRead toyIds false 1 (kown.segs.map (fun s => (s.md, s.payload))) = [] ∧
+    (feedG (toyOpenK toyCodecT kfam) (fun _ => toyOpenK toyCodecT kfam) toyCodecT 6
+      ⟨5, [], [], false⟩ (kwire krev)).out = krev.segs.map (fun s => (s.md, s.payload)) ∧
+    appRead toyIds true 1 (krev.segs.map (fun s => (s.md, s.payload))) = [] ∧
+    appRead toyIds false 1 (krev.segs.map (fun s => (s.md, s.payload))) = [[7, 7], [8]] ∧
+    (feedG (toyOpenK toyCodecT kfam) (fun _ => toyOpenK toyCodecT kfam) toyCodecT 6
+      ⟨200, [], [], false⟩ (kwire koth)).out = koth.segs.map (fun s => (s.md, s.payload)) ∧
+    appRead toyIds true 1 (koth.segs.map (fun s => (s.md, s.payload))) = [] ∧
+    (feedG (toyOpenK toyCodecT kfam) (fun _ => toyOpenK toyCodecT kfam) toyCodecT 6
+      ⟨104, [], [], false⟩ ((kwire kown).drop 131)).out = (kown.segs.drop 2).map (fun s => (s.md, s.payload)) ∧
+    appRead toyIds true 1 ((kown.segs.drop 2).map (fun s => (s.md, s.payload))) = [] := by
+  refine ⟨toyOpenK_ideal _ _, kfam_disjoint, ?_, ?_, ?_, ?_, ?_, ?_, ?_, ?_, ?_, ?_, ?_, ?_, ?_, ?_, ?_⟩
+  · show ∀ st ∈ kfam, ∀ s ∈ st.segs, (s.md.payloadLen = 0 ↔ s.payload = []) ∧ toyCodecT.ok s.md = true
+    decide
+  · show ∀ st ∈ kfam, ∀ s ∈ st.segs, s.payload ≠ [] → toyCodecT.dec s.payload = none
+    decide
+  · show ∀ st ∈ kfam, ∀ s ∈ st.segs, dirOK (!st.fromClient) (toyIds s.md).proto = true
+    decide
+  · show ∀ st ∈ kfam, ∀ i (h : i < (dataOf toyIds 1 st.segs).length), (toyIds ((dataOf toyIds 1 st.segs)[i]).md).seq = i
+    decide
+  · decide
+  all_goals decide +kernel
+
+/-- a low-entropy segment (type 11: `payloadLen` = 8 = length of the ENCODED body, payload plaintext of
+    4 bytes) is `Seg.wfT`, not `Seg.wf`; its wire form — the canonical encoding of the ciphertext body
+    followed by the unmodified tag — is opened by `feedG` with `lePayOpen`, and the SAME body with one
+    padding bit flipped is rejected before the AEAD is consulted (Props/C17 worked example) -/
+def leSeg : Seg := ⟨⟨0, 8, 0, ktag 11 1 0⟩, [0x12, 0x34, 0x56, 0x78], [], []⟩
+def leOfToy (m : Md) : Option (Nat × Nat × Nat × Nat) := if m.tag % 16 = 10 ∨ m.tag % 16 = 11 then some (4, 1, 0x0f0f0f0f, 0) else none
+def leWire (body : Bytes) : Bytes := tenc 100 (toyCodecT.enc leSeg.md) ++ body ++ List.replicate 16 101
+
+example :
+    leSeg.wfT toyCodecT ∧ ¬ leSeg.wf toyCodecT ∧
+    (feedG (toyOpenT toyCodecT 100 [leSeg]) (lePayOpen leOfToy (toyOpenT toyCodecT 100 [leSeg])) toyCodecT 3
+      ⟨100, [], [], false⟩ (leWire [0xf1, 0xf2, 0xf3, 0xf4, 0xf5, 0xf6, 0xf7, 0xf8])).out = [(leSeg.md, leSeg.payload)] ∧
+    (feedG (toyOpenT toyCodecT 100 [leSeg]) (lePayOpen leOfToy (toyOpenT toyCodecT 100 [leSeg])) toyCodecT 3
+      ⟨100, [], [], false⟩ (leWire [0x01, 0x02, 0x03, 0x04, 0x05, 0x06, 0x07, 0xf8])).dead = true ∧
+    -- the raw opener of `feedF` does not decode: the same genuine wire is rejected
+    (feedF (toyOpenT toyCodecT 100 [leSeg]) toyCodecT 3
+      ⟨100, [], [], false⟩ (leWire [0xf1, 0xf2, 0xf3, 0xf4, 0xf5, 0xf6, 0xf7, 0xf8])).out = [] := by
+  refine ⟨?_, ?_, ?_, ?_, ?_⟩
+  · show (leSeg.md.payloadLen = 0 ↔ leSeg.payload = []) ∧ toyCodecT.ok leSeg.md = true
+    decide
+  · show ¬ (leSeg.md.payloadLen = leSeg.payload.length ∧ leSeg.md.prefixLen = leSeg.pad1.length ∧
+      leSeg.md.suffixLen = leSeg.pad2.length ∧ toyCodecT.ok leSeg.md = true)
+    decide
+  all_goals decide +kernel
 
 /-- EVERY hypothesis of `udp_tamper_genuine` / `udp_modified_datagram_discarded` (`hlen`, `IdealD`, `WfD`,
     `BdLen` for the `bd` that is used, `Fresh`, `DomSep`) is satisfiable together, by genuine traffic that
